@@ -54,7 +54,7 @@ Graph(id) ==
       mine  |-> <<{0,1}, {0}, {0}, {0}>>,
       chg   |-> <<{1}, {}, {0}, {}>>,
       cb    |-> <<FALSE, FALSE, FALSE, FALSE>>,
-      lops  |-> {<<1,0>>, <<1,1>>, <<2,0>>} ]
+      lops  |-> {<<1,0>>, <<2,0>>} ]
   [] id = 2 ->  \* fan-out / fan-in (diamond)
     [ n |-> 4,
       ins   |-> << <<<<0,1>>>>, <<<<1,0>>>>, <<<<1,1>>>>, <<<<2,0>>, <<3,0>>>> >>,
